@@ -1355,3 +1355,47 @@ M("C15", "last-point-not-updated", SAM,
 B("C15", "locals-renamed-and-guard-reordered", SAM,
   "                gap = np.random.normal(self._avg_gap, self._std_gap)\n                start = last_point + gap",
   "                start = np.random.normal(self._avg_gap, self._std_gap) + last_point")
+
+# =============================================================================================
+# C19
+# =============================================================================================
+M("C19", "category-shuffle-shifts-segment", CST,
+  "                continuum.add(annotator, Segment(unit.segment.start, unit.segment.end), new_category)",
+  "                continuum.add(annotator, Segment(unit.segment.start, unit.segment.end + 1e-3), new_category)", "R-C19-2")
+M("C19", "false-pos-removes", CST,
+  "                continuum.add(annotator,\n                              Segment(center - duration / 2, center + duration / 2),\n                              annotation=category)",
+  "                continuum.add(annotator,\n                              Segment(center - duration / 2, center + duration / 2),\n                              annotation=category)\n                continuum.remove(annotator, next(iter(continuum[annotator])))", "R-C19-2")
+M("C19", "split-adds-one-piece", CST,
+  "                    continuum.add(annotator, Segment(cut, to_split.segment.end), to_split.annotation)\n                    continuum.add(annotator, Segment(to_split.segment.start, cut), to_split.annotation)",
+  "                    continuum.add(annotator, Segment(to_split.segment.start, cut), to_split.annotation)", "R-C19-2")
+M("C19", "shift-max-without-magnitude", CST,
+  "        shift_max = self.magnitude * self.SHIFT_FACTOR * \\\n            self._reference_continuum.avg_length_unit",
+  "        shift_max = self.SHIFT_FACTOR * \\\n            self._reference_continuum.avg_length_unit", "R-C19-3")
+M("C19", "false-neg-without-security-guard", CST,
+  "            if len(continuum._annotations[annotator]) == 0:\n                continuum.add(annotator, security.segment, security.annotation)",
+  "            continuum.add(annotator, security.segment, security.annotation)", "R-C19-2", "a removed unit can come back: not only removals")
+M("C19", "include-ref-without-absence-check", CST,
+  """            assert self._reference_annotator not in continuum.annotators, \\
+                "Reference annotator can't be included as " \\
+                "an annotator with the same name is in the " \\
+                "generated corpus."
+""", "", "R-C19-4")
+M("C19", "false-neg-removal-non-strict", CST,
+  "                if np.random.random() < self.magnitude:", "                if np.random.random() <= self.magnitude:", "R-C19-2")
+M("C19", "split-pieces-overlap", CST,
+  "                    continuum.add(annotator, Segment(cut, to_split.segment.end), to_split.annotation)",
+  "                    continuum.add(annotator, Segment(to_split.segment.start + security, to_split.segment.end), to_split.annotation)", "R-C19-2", "total annotated duration grows")
+M("C19", "cat-matrix-not-identity-at-zero", CST,
+  "            prob_matrix = prob_matrix * (1 - self.magnitude ** 2) + sec_matrix * self.magnitude ** 2",
+  "            prob_matrix = prob_matrix * (1 - self.magnitude ** 2) + sec_matrix * (self.magnitude ** 2 + 0.01)", "R-C19-3")
+M("C19", "shift-flag-also-splits", CST,
+  "        if shift:\n            self.shift_shuffle(continuum)", "        if shift:\n            self.shift_shuffle(continuum)\n            self.splits_shuffle(continuum)", "R-C19-4")
+M("C19", "reference-copy-drops-label", CST,
+  "                              Segment(unit.segment.start, unit.segment.end),\n                              unit.annotation)",
+  "                              Segment(unit.segment.start, unit.segment.end))", "R-C19-1")
+M("C19", "split-label-changes", CST,
+  "                    continuum.add(annotator, Segment(to_split.segment.start, cut), to_split.annotation)",
+  "                    continuum.add(annotator, Segment(to_split.segment.start, cut), None)", "R-C19-2")
+B("C19", "loops-over-list-copies", CST,
+  "            for unit in continuum[annotator]:\n                continuum.remove(annotator, unit)\n                start_seg, end_seg = 0.0, 0.0",
+  "            for unit in list(continuum[annotator]):\n                continuum.remove(annotator, unit)\n                start_seg, end_seg = 0.0, 0.0")
